@@ -15,7 +15,7 @@ for pid in ALL:
         "quick_cmd": f"python3 run/check.py {pid} --tier quick",
         "thorough_cmd": f"python3 run/check.py {pid} --tier thorough",
         "evidence_file": f"/verif/evidence/{pid}.json",
-        "replay_cmd_template": "/verif/harness/target/release/vh replay " + pid + " {path}",
+        "replay_cmd_template": "python3 /verif/run/replay.py {path}",
         "engine": "coq-proof+correspondence",
         "level_claimed": {"category": "proof", "text": m.LEVEL_TEXT, "design_ref": f"DESIGN.md section 7 ({pid})"},
         "level_note": m.LEVEL_NOTE,
